@@ -966,7 +966,7 @@ Contract(
     entry_facts=lambda c: [closed_queue(c)],
     allocates=True,
     note="exception paths (wrong placement type, PREEMPTED task, skip helper) are not constrained",
-    props=("C16", "C06", "C02", "C03"),
+    props=("C16", "C06", "C02", "C03", "C08"),
 )
 
 
